@@ -117,6 +117,29 @@ def _buf_self(A, x):
     return y * x
 
 
+def _inplace_through_view(A, x):
+    # augmented assignment on a VIEW of a buffer writes through to the buffer (numpy semantics)
+    buf = A.zeros(3, dtype=x)
+    buf[...] = x
+    head = buf[:2]
+    head += x[1:]
+    head *= 2.0
+    return buf * x
+
+
+def _inplace_alias(A, x):
+    z = x * 1.0
+    w = z
+    w += 10.0
+    w /= x
+    return z * x
+
+
+def _flat_read(A, x):
+    # .flat is a traced read as well
+    return x * x.flat[3]
+
+
 def _paused(A, x):
     # recording is suspended with trace_off() and resumed with trace_on(): what ran while
     # recording was on is on the tape, what ran in between is not
@@ -224,6 +247,9 @@ def catalogue():
     add('buffer, y[0:2] = y[1:3]', _buf_shift_down, group='buffer')
     add('buffer, y[1:3] = y[0:2]', _buf_shift_up, group='buffer')
     add('buffer, y[...] = y[::-1]', _buf_self, group='buffer')
+    add('augmented assignment through a view of a buffer', _inplace_through_view, group='buffer')
+    add('augmented assignment through a second name', _inplace_alias, dom='nonzero', group='buffer')
+    add('x*x.flat[3]', _flat_read, shape=(2, 2), group='index')
     add('paused recording', _paused, group='buffer')
     add('paused recording twice', _paused_twice, group='buffer')
     add('prod(x)+sum(x*x)', lambda A, x: A.prod(x) + A.sum(x * x), group='reduce')
